@@ -106,7 +106,15 @@ pub(crate) fn run_history(h: &[Op], tags: Tags) -> Exec {
     let mut history = h.to_vec();
     let pre = if n > 0 {
         let (c, s) = (sys.client.clone(), sys.server.clone());
-        match sys.run("probe-before", probe(c, s)) {
+        // The model's pre-state is the lookup view. The complete view of the same state is the
+        // verdict of the history that ends here (merged search: taken in full, to confirm the
+        // canonical state was reproduced).
+        let r = if tags == Tags::FromPre {
+            sys.run("probe-before", probe(c, s))
+        } else {
+            sys.run("probe-before", osrv::probe_lookup(s))
+        };
+        match r {
             Ran::Done(o) => Some(o),
             r => {
                 let (kind, text) = failed(&r).unwrap();
@@ -381,31 +389,31 @@ struct Counters {
     dead_prefix: std::sync::atomic::AtomicU64,
 }
 
-fn absorb(report: &Report, cnt: &Counters, ex: &Exec, local_states: &mut HashSet<u64>, want_sample: bool) -> Option<u64> {
+fn absorb(report: &Report, cnt: &Counters, ex: &Exec, acc: &mut osrv::Acc, want_sample: bool) -> Option<u64> {
     use std::sync::atomic::Ordering::Relaxed;
     match ex {
         Exec::DeadPrefix(_, _) => {
             cnt.dead_prefix.fetch_add(1, Relaxed);
-            report.outcome("extends a history that already panicked (pruned)");
+            acc.outcome("extends a history that already panicked (pruned)");
             None
         }
         Exec::Last { history, pre, ret, post } => {
-            report.eval(1);
+            acc.evals += 1;
             cnt.histories.fetch_add(1, Relaxed);
             cnt.transitions.fetch_add(history.len() as u64, Relaxed);
             let (vs, class) = check(history, pre.as_ref(), ret, post);
-            report.outcome(&class);
+            acc.outcome(&class);
             let post_h = post.as_ref().ok().map(|o| hash64(&o.structural()));
             if let Some(h) = post_h {
-                local_states.insert(h);
+                acc.states.push(h);
             }
-            let pre_h = pre.as_ref().map(|o| hash64(&o.structural()));
+            let pre_h = pre.as_ref().map(|o| hash64(&Obs::set_of(&o.lookup).keys().collect::<Vec<_>>()));
             let op_h = history.last().map(|o| match o {
                 Op::At { p, i, .. } => (0, *p, *i),
                 Op::Remove { p, i } => (1, *p, *i),
                 _ => (2, 0, 0),
             });
-            report.nontrivial(hash64(&(pre_h, op_h, post_h, ret.is_ok())));
+            acc.nontrivial.push(hash64(&(pre_h, op_h, post_h, ret.is_ok())));
             if want_sample {
                 report.sample(json!({
                     "history": show_history(history),
@@ -452,16 +460,13 @@ pub fn main(args: &Args) -> i32 {
 
     // Phase 1: the full history tree, no merging.
     let total = enumerate::count_strings(alpha.len(), depth);
-    vcommon::par_for(total, 64, |n| {
+    osrv::par_items(total, 64, &report, &cnt.states, |n, acc| {
         let mut idx = vec![];
         enumerate::nth_string(alpha.len(), n, &mut idx);
         let h = decode(&alpha, &idx);
         let ex = run_history(&h, Tags::Given);
-        let mut local = HashSet::new();
-        // sample: a spread of indices
         let want = hash64(&n) % (total as u64 / 10).max(1) == 0;
-        absorb(&report, &cnt, &ex, &mut local, want);
-        cnt.states.lock().unwrap().extend(local);
+        absorb(&report, &cnt, &ex, acc, want);
     });
     let tree_hist = cnt.histories.load(std::sync::atomic::Ordering::Relaxed);
     report.set("full_tree_depth", json!(depth));
@@ -494,7 +499,7 @@ pub fn main(args: &Args) -> i32 {
                 })
                 .collect();
             let found: Mutex<BTreeMap<u64, Vec<Op>>> = Mutex::new(BTreeMap::new());
-            vcommon::par_for(jobs.len(), 8, |n| {
+            osrv::par_items(jobs.len(), 8, &report, &cnt.states, |n, acc| {
                 let (canon_pre, h) = &jobs[n];
                 let ex = run_history(h, Tags::FromPre);
                 if let Exec::Last { pre: Some(p), .. } = &ex {
@@ -505,9 +510,7 @@ pub fn main(args: &Args) -> i32 {
                         ));
                     }
                 }
-                let mut local = HashSet::new();
-                let post = absorb(&report, &cnt, &ex, &mut local, false);
-                cnt.states.lock().unwrap().extend(local);
+                let post = absorb(&report, &cnt, &ex, acc, false);
                 if let (Some(c), Exec::Last { history, .. }) = (post, &ex) {
                     let mut f = found.lock().unwrap();
                     // keep the smallest representative: deterministic irrespective of thread timing
